@@ -36,4 +36,13 @@ PROPS = {
         "segmentation/windows/flushing and poisoned LIFO/FIFO pools; distinct = distinct scheduler-log hash (sequence of chosen operations and "
         "their parameters) among runs in which the scheduler had >= 2 candidates at some step",
         4000, 400000),
+    "C02": e2e(
+        "each run = one seeded call whose handler returns an error (code 1..16, message class, 0..3 details, metadata multimap; plain errors; "
+        "NewError(code,nil)) after k messages, possibly before draining the request, under a seeded schedule/segmentation; distinct = distinct "
+        "scheduler-log hash among runs with >= 2 candidates at some step",
+        4000, 300000),
+    "C11": e2e(
+        "each run = one seeded call with generated request-header, response-header and response-trailer multimaps (multi-valued keys, -Bin keys) "
+        "x {success, error before first message, error after messages}; distinct = distinct scheduler-log hash among runs with >= 2 candidates",
+        4000, 300000),
 }
